@@ -92,7 +92,7 @@ def validate_traces(scratch, prog, trace_lines, name, timeout=1800):
     with open(mod, "w") as f:
         f.write("---- MODULE ViewTraceRun ----\nEXTENDS ViewTrace\n====\n")
     cfg = os.path.join(d, "ViewTraceRun.cfg")
-    write_cfg(cfg, spec="Spec")
+    write_cfg(cfg, spec="Spec", invariants=["Checked"])
     res = run_tlc(mod, cfg, lib_areas=("view", "text"), workers=1, env={"TRACE_FILE": tf}, timeout=timeout, heap="3g")
     outs = res.printed_json()
     summary = [o for o in outs if isinstance(o, dict) and o.get("summary")]
@@ -314,3 +314,27 @@ def model_check(scratch, prog, t, ps, alphabet, maxlen, targets, name, invariant
     cfg = os.path.join(d, "ViewMCRun.cfg")
     write_cfg(cfg, spec="Spec", invariants=invariants, properties=properties)
     return run_tlc(mod, cfg, lib_areas=("view",), workers=workers, env={"MC_FILE": mf}, timeout=timeout, heap="3g", coverage=True)
+
+
+def generated_programs(scratch, n, seed, maxphys=5, maxvirt=2, name="pg"):
+    """TLC -simulate of spec/view/ProgGen.tla -> list of Programs (plus the TLCResult)."""
+    d = scratch.sub("proggen_" + name)
+    mod = os.path.join(d, "ProgGenRun.tla")
+    with open(mod, "w") as f:
+        f.write("---- MODULE ProgGenRun ----\nEXTENDS ProgGen\n====\n")
+    cfg = os.path.join(d, "ProgGenRun.cfg")
+    write_cfg(cfg, spec="Spec", constants={"MaxPhys": maxphys, "MaxVirt": maxvirt})
+    res = run_tlc(mod, cfg, lib_areas=("view",), workers=1, simulate=n, depth=maxphys + maxvirt + 6, seed=seed, timeout=900, heap="2g")
+    progs = []
+    seen = set()
+    for j in res.printed_json():
+        if not isinstance(j, dict) or "types" not in j:
+            continue
+        key = json.dumps(j["types"]["Main"], sort_keys=True)
+        if key in seen:
+            continue
+        seen.add(key)
+        j["name"] = "G%ds%d" % (len(progs), seed)
+        j["default_order"] = "LE"
+        progs.append(view_prog.from_json(j))
+    return progs, res
